@@ -58,6 +58,8 @@ def eval_guard(test, env):
 
 def branch_style(body):
     txt = " ".join(norm(s) for s in body)
+    if "np.repeat(npt, rad)" in txt and "_find_degrees_for_radial_points(" not in txt:
+        return "count-repeat"
     count = "range(rad[" in txt
     sector = "_find_degrees_for_radial_points(" in txt and ", rad," in txt.replace("rad_degs", "")
     if count and not sector:
@@ -86,6 +88,14 @@ def rule_r1(rep, repo):
             branches.append((None, cur.orelse))
             break
     styles = [branch_style(b) for _, b in branches]
+    # literal lists bound to local names before the dispatch (used inside the guards)
+    local_consts = {}
+    for st in strip_docstring(f.node.body):
+        if isinstance(st, ast.Assign) and len(st.targets) == 1 and isinstance(st.targets[0], ast.Name):
+            try:
+                local_consts[st.targets[0].id] = e4.fold(st.value)
+            except (e4.NotConstant, AnalysisError):
+                pass
     # file template and member templates
     tmpl = rad_t = npt_t = None
     pkg = None
@@ -164,7 +174,7 @@ def rule_r1(rep, repo):
             # which branch does this pair take?
             idx = None
             for i, (test, body) in enumerate(branches):
-                if test is None or eval_guard(test, {"preset": preset, "atnum": z}):
+                if test is None or eval_guard(test, {**local_consts, "preset": preset, "atnum": z}):
                     idx = i
                     break
             style = styles[idx]
@@ -173,7 +183,16 @@ def rule_r1(rep, repo):
                 raise AnalysisError(f"{where}: member {kr}/{kn} too large to be a configuration table")
             is_int = rad["descr"][1] in "iu"
             bad = None
-            if style == "count":
+            if style == "count-repeat":
+                if not is_int:
+                    bad = (f"table is sector-style (radii, dtype {rad['descr']}) but routed to the shell-count branch")
+                elif len(npt["value"]) != len(rad["value"]):
+                    bad = (f"np.repeat(npt, rad) needs as many sizes as shell counts, but the shipped table has "
+                           f"{len(npt['value'])} sizes for {len(rad['value'])} counts: ValueError (operands could not "
+                           f"be broadcast), so this tabulated element cannot be built")
+                elif any(v < 0 for v in rad["value"]):
+                    bad = "negative shell count"
+            elif style == "count":
                 if not is_int:
                     bad = (f"table is sector-style (radii, dtype {rad['descr']}) but the guards of from_preset route "
                            f"({preset}, Z={z}) to the shell-count branch: range(rad[idx]) fails on floats")
@@ -240,7 +259,7 @@ def rule_r1(rep, repo):
         kws = {k.arg: norm(k.value) for k in ret.value.keywords}
         where = repo.rel("atomgrid", ret)
         label = norm(test)[:50] if test is not None else "else"
-        if st == "count":
+        if st in ("count", "count-repeat"):
             if "sizes" in kws and (len(ret.value.args) < 2 or norm(ret.value.args[1]) == "None") and "degrees" not in kws:
                 rep.ok("R5.count-presets-pass-sizes", f"from_preset[{label}]", where, f"sizes={kws['sizes']}")
             else:
